@@ -836,6 +836,17 @@ func follows(path string, b *MsgB, prev, cur, fresh *Node, sv reflect.Value, st 
 			return fmt.Sprintf("%s: unknown after refresh", p)
 		}
 		if ab.UnderNilEmbed(sv) {
+			// The embedded parent is nil in the source: its scalars have no value, so an attribute that
+			// was non-null must not keep the old one (it is null, or at least holds the zero value)
+			if ab.Sub == nil && ab.A.Card == "" && !cn.Null && pv != nil && !pv.Null {
+				lt := ab.Typ
+				if lt.Kind() == reflect.Ptr {
+					lt = lt.Elem()
+				}
+				if zero := expLeaf(ab.A, rcModel, reflect.Zero(lt)); cn.Kind == zero.Kind && !leafEqual(cn, zero) {
+					return fmt.Sprintf("%s: the embedded message is nil in the source but the attribute still holds %s (was %s)", p, cn.String(), pv.String())
+				}
+			}
 			continue
 		}
 		v, ok := ab.Get(sv)
